@@ -36,7 +36,7 @@ def check(run):
             cases.append(("verify", msg + bytes(extra), None))
             cases.append(("verify_roots", full + bytes(extra), b""))
         # declared signal length
-        for d in [0, len(sig) - 1, len(sig) + 1, 2**32, 2**63, 2**64 - 1, 2**64 - 296, 2**64 - 295]:
+        for d in [0, len(sig) - 1, len(sig) + 1, 2**32, 2**63, 2**64 - 1, 2**64 - 296, 2**64 - 295] + [len(sig) + (1 << k) for k in (8, 16, 31, 32, 33, 40, 48, 56, 63)]:   # also lengths congruent to the true one modulo a narrower integer width
             if d >= 0:
                 cases.append(("verify_rln", rlngen.verify_input(msg, sig, d), None))
                 cases.append(("verify_roots", rlngen.verify_input(msg, sig, d), b""))
@@ -85,7 +85,30 @@ def check(run):
         tail = rlngen.with_oracle(zkh, [(f"rln verify_rln {hx(full)}", msg), (f"rln verify {hx(msg)}", msg)])
         io = [f"rln io r verify_rln {hx(full)}", tail[0], f"rln io r verify {hx(msg)}", tail[1],
               f"rln io r recover {hx(msg)} {hx(msg)}", f"rln io w recover {hx(msg)} {hx(msg)}", tail[0]]
-        seqs.append(M["setup"] + lines + io)
+        chunked = ["rln chunk 0x9", tail[0], tail[1], f"rln recover {hx(msg)} {hx(msg)}", "rln chunk 0x0"]      # the same calls from readers that deliver 9 bytes at a time
+        seqs.append(M["setup"] + lines + io + chunked)
     run.rules.append("from real messages: every truncation length of verify / verify_rln_proof / verify_with_roots / recover_id_secret inputs, over-long inputs, declared signal lengths {0,len-1,len+1,2^32,2^63,2^64-1,…}, random content per field and in the proof, every v+k*p alias of the five public values that fits 32 bytes, roots buffers of every length; distinct = distinct input line")
+    # ---- a message of exactly 1 MiB (signal of 1 048 280 bytes), the same with bytes appended, and a longer valid one: reading
+    #      limits / buffer sizes inside the verifier must not cut a message short silently
+    big_sig = bytes(rng.getrandbits(8) for _ in range(1024)) * 1023 + bytes(rng.getrandbits(8) for _ in range(1048280 - 1024 * 1023))
+    Mb = rlngen.Member(zkh, rand_fr(rng), 100, 5)
+    bsetup = Mb.setup([(1, rand_fr(rng))])
+    ext_b = rand_fr(rng)
+    bseq = list(bsetup)
+    for sg in ([big_sig] if quick else [big_sig, big_sig + b"longer than a mebibyte", big_sig[:-1]]):
+        mb = rlngen.run_prove(zkh, bsetup, "prove_req", rlngen.prove_request(Mb.secret, Mb.index, Mb.limit, 1, ext_b, sg))
+        if mb is None:
+            run.violation({"property": run.pid, "kind": "impl-vs-spec", "stream": "big-message", "ops": bsetup, "detail": "a valid request with a 1 MiB signal did not prove"})
+            continue
+        fullb = rlngen.verify_input(mb, sg)
+        bl = [(f"rln verify_rln {hx(fullb)}", mb), (f"rln verify_rln {hx(fullb + b'!')}", mb), (f"rln verify_rln {hx(fullb + bytes(100))}", mb),
+              (f"rln verify_roots {hx(fullb + b'!')} -", mb), (f"rln verify_roots {hx(fullb)} -", mb), (f"rln recover {hx(fullb)} {hx(fullb + b'!')}", None)]
+        bseq += rlngen.with_oracle(zkh, bl)
+    run.differential("big-message", [bseq], spec_canon=rlngen.spec_verdict, shrink=False)
+    # the canonicity test itself, at limb granularity around the modulus (every branch of a limb-by-limb comparison), short inputs
+    from lib import gen as _gen
+    cl = [[f"is_canonical {le(v, 32).hex()}"] for v in _gen.NEAR_MODULUS + _gen.ABOVE_MODULUS + [0, 1, P - 1, P, P + 1, 2**256 - 1]]
+    cl += [[f"is_canonical {le(P - 1, 32)[:n].hex() or '-'}"] for n in (0, 1, 31)] + [[f"is_canonical {(le(P - 1, 32) + b'zz').hex()}"]]
+    run.differential("canonical-check", cl, shrink=False)
     run.differential("untrusted-input", seqs, spec_canon=rlngen.spec_verdict, shrink=False)
     # a roots buffer containing only an alias of the root: the verifier's own set, reduced silently (documented as such)
